@@ -375,6 +375,30 @@ func checkC08(c C08Case) Result {
 							r.Fail("c08:self-not-enabled", "%s candidate %d %q offered although the body does not enable self references\n%s", cl, i, cd.Label, clip(text, 900))
 						}
 					}
+					// never a declaration of the outermost block around the cursor (the block itself or
+					// anything declared inside it, at any nesting depth): the library's own rule for what
+					// is visible ("references pointing back to the same block")
+					if ob := outermostBlockAt(body, off); ob != nil && len(abs) > 0 && len(locs) == 0 {
+						obr, bb := ob.Range(), ob.Body.Range()
+						if bb.Start.Byte < off && off < bb.End.Byte && bb.End.Byte == obr.End.Byte {
+							r.Class("absolute-candidate-with-cursor-inside-a-block")
+							if ob.Body.Blocks != nil && innerBlockAt(ob.Body, off) {
+								r.Class("absolute-candidate-with-cursor-two-blocks-deep")
+							}
+							allInside := true
+							for _, t := range abs {
+								in := t.RangePtr != nil && t.RangePtr.Filename == f.Name &&
+									((t.RangePtr.Start.Byte >= bb.Start.Byte && t.RangePtr.Start.Byte < bb.End.Byte) ||
+										(t.RangePtr.Start.Byte == obr.Start.Byte && t.RangePtr.End.Byte == obr.End.Byte))
+								if !in {
+									allInside = false
+								}
+							}
+							if allInside {
+								r.Fail("c08:offers-enclosing-block-declaration", "%s candidate %d %q is declared by the outermost block around the cursor (the block itself or something inside it): not visible from there\n%s", cl, i, cd.Label, clip(text, 900))
+							}
+						}
+					}
 					// never the attribute being edited itself
 					all := append(append([]reference.Target{}, abs...), locs...)
 					onlySelf := true
@@ -605,4 +629,24 @@ func interpolationAtCursor(e hclsyntax.Expression, off int) hclsyntax.Expression
 		}
 	}
 	return nil
+}
+
+// outermostBlockAt: the top-level block of the file whose extent holds the offset.
+func outermostBlockAt(body *hclsyntax.Body, off int) *hclsyntax.Block {
+	for _, b := range body.Blocks {
+		if rg := b.Range(); rg.Start.Byte <= off && off <= rg.End.Byte {
+			return b
+		}
+	}
+	return nil
+}
+
+// innerBlockAt: the offset lies inside a block nested in the body.
+func innerBlockAt(body *hclsyntax.Body, off int) bool {
+	for _, b := range body.Blocks {
+		if rg := b.Body.Range(); rg.Start.Byte < off && off < rg.End.Byte {
+			return true
+		}
+	}
+	return false
 }
